@@ -33,6 +33,21 @@ def main(out):
             good = (isinstance(a, np.ndarray) and a.ndim == 2 and a.shape[1] == 2 and a.shape[0] >= 1 and a.dtype == np.float64
                     and bool(np.all(np.isfinite(a))) and bool(np.all(np.diff(a[:, 0]) > 0))
                     and np.array_equal(x, a[:, 0]) and np.array_equal(y, a[:, 1]))
+            if good:
+                # a later load must not depend on what a caller did to an earlier result (no shared buffers between loads)
+                try:
+                    a[:] = np.nan
+                    x[:] = -1.0
+                    y[:] = np.inf
+                except Exception:
+                    pass
+                b = D.load_dataset(ds)
+                bx, by = D.load_dataset(ds, unpack_dataset_columns=True)
+                good = (isinstance(b, np.ndarray) and b.ndim == 2 and b.shape[1] == 2 and bool(np.all(np.isfinite(b)))
+                        and bool(np.all(np.diff(b[:, 0]) > 0)) and np.array_equal(bx, b[:, 0]) and np.array_equal(by, b[:, 1]))
+                if not good:
+                    problems.append(dict(name=ds, problem="a second load returns data corrupted by an in-place change of the first result (shared buffer)"))
+                    continue
         except Exception as e:
             good = False
             problems.append(dict(name=ds, problem=f"bundled: {type(e).__name__}: {e}"))
@@ -41,6 +56,50 @@ def main(out):
             bundled_ok += 1
         else:
             problems.append(dict(name=ds, problem="bundled file is not a finite (k, 2) float array with strictly increasing first column"))
+    # remote datasets through the REAL load_csv_dataset_from_remote with the network replaced by a stub that writes a file
+    # identifying the requested URL: every name must trigger exactly one download of its own file into its own cache slot
+    import gzip as _gz
+    import tempfile
+    downloads = []
+
+    def fake_fetch(remote, dirname=None, **kw):
+        downloads.append(remote.url)
+        ident = float(len(downloads))
+        pth = os.path.join(dirname or ".", remote.filename)
+        text = f"0,{ident}\n1,{ident}\n".encode()
+        with (_gz.open(pth, "wb") if str(remote.filename).endswith(".gz") else open(pth, "wb")) as f:
+            f.write(text)
+        return pth
+    real_fetch = getattr(B, "_fetch_remote", None)
+    old_env = os.environ.get("TRAFFIC_WEAVER_DATA")
+    if real_fetch is not None:
+        with tempfile.TemporaryDirectory() as home:
+            os.environ["TRAFFIC_WEAVER_DATA"] = home
+            B._fetch_remote = fake_fetch
+            try:
+                dd = os.path.join(os.path.dirname(B.__file__), "data_description")
+                for f in sorted(glob.glob(os.path.join(dd, "*.md"))):
+                    for line in open(f, encoding="utf-8"):
+                        mm = re.match(r"^\|\s*\d+\s*\|\s*([^|\s]+)\s*\|", line)
+                        if not mm or mm.group(1).startswith("sandvine"):
+                            continue
+                        n = mm.group(1)
+                        before = len(downloads)
+                        try:
+                            data = D.load_dataset(n)
+                        except Exception as e:
+                            problems.append(dict(name=n, problem=f"remote (stubbed network): {type(e).__name__}: {e}"))
+                            continue
+                        if len(downloads) != before + 1:
+                            problems.append(dict(name=n, problem=f"{len(downloads) - before} downloads for a name requested for the first time (cache slot shared with another dataset?)"))
+                        elif not (getattr(data, "shape", None) == (2, 2) and float(data[0, 1]) == float(len(downloads))):
+                            problems.append(dict(name=n, problem="the data returned is not the file downloaded for this name"))
+            finally:
+                B._fetch_remote = real_fetch
+                if old_env is None:
+                    os.environ.pop("TRAFFIC_WEAVER_DATA", None)
+                else:
+                    os.environ["TRAFFIC_WEAVER_DATA"] = old_env
     for m in mods:
         if hasattr(m, "load_csv_dataset_from_remote"):
             m.load_csv_dataset_from_remote = fake_remote
